@@ -1,15 +1,162 @@
 (* C15: the forwarder delivers every batch exactly once or reports it dropped.
-   Models: Model/Consolidator.v (metric_consolidator.go), Model/Forwarder.v
-   (handler_http_forwarder_v2.go, metric_map.go SplitByTags). *)
-From Coq Require Import List Arith.
-From GS Require Import Base.LTS Model.Consolidator Proofs.Consolidator.
+
+   Models (definitions only): Model/Consolidator.v = metric_consolidator.go as an LTS over the atomic
+   channel operations of dispatchers and the flusher; Model/Forwarder.v = metric_map.go
+   tagsMatch/SplitByTags, and handler_http_forwarder_v2.go's Run loop, semaphores, post/retry loop and
+   counters.  Every theorem quantifies over all label sequences [ls] (= all interleavings and all
+   fault scripts: the outcome of an attempt and the decision of the backoff policy are labels) and
+   over all slot counts, semaphore sizes, header names and contents.  Proofs: Proofs/Consolidator.v,
+   Proofs/Forwarder.v. *)
+From Coq Require Import List Arith Permutation.
+From GS Require Import Base.Bytes Base.LTS Model.Lexer Model.Series Model.MetricMap.
+From GS Require Import Model.Consolidator Model.Forwarder Proofs.Consolidator Proofs.Forwarder.
+From stdpp Require Import gmap.
 Import ListNotations.
 
-(* Between any two steps of any interleaving of dispatchers and the flusher, the k slots are all
-   accounted for: in the channel, held by a dispatcher that is merging, collected by Drain, or
-   still owed to the channel by Fill.  Hence Drain returns only when no merge is in flight. *)
+(* ---- the consolidator ---------------------------------------------------------------------- *)
+
+(* In every reachable state the k slots are all accounted for: in the channel, held by a dispatcher
+   between its receive and its send, collected by Drain, or still owed to the channel by Fill.
+   So Drain's k-th receive succeeds only when no merge is in flight, and (second theorem) neither a
+   dispatcher's send nor Fill's ever finds the channel full. *)
 Theorem C15_slot_tokens : forall (M : Type) (mempty : M) (mmerge : M -> M -> M) (k : nat) ls s,
-  run (step mempty mmerge k) (init mempty k) ls = Some s ->
+  run (Consolidator.step mempty mmerge k) (Consolidator.init mempty k) ls = Some s ->
   length (chan s) + length (held s) + owed (fl s) = k.
 Proof. exact (@slot_tokens). Qed.
 Print Assumptions C15_slot_tokens.
+
+Theorem C15_sends_never_block : forall (M : Type) (mempty : M) (mmerge : M -> M -> M) (k : nat) ls s,
+  run (Consolidator.step mempty mmerge k) (Consolidator.init mempty k) ls = Some s ->
+  (forall d, Consolidator.lookup d (held s) <> None -> Consolidator.step mempty mmerge k s (Put d) <> None)
+  /\ (forall n, fl s = Filling (S n) -> Consolidator.step mempty mmerge k s FillOne <> None).
+Proof. exact (@sends_never_block). Qed.
+Print Assumptions C15_sends_never_block.
+
+(* Batches are numbered in the order of their Take.  put_stamp s i = Some e: batch i was sent back
+   (its dispatch returned) when e DrainStarts had happened; take_stamp s i = Some t: it got its slot
+   when t flushes had been emitted; flush_ids s f = the batches in the maps of the f-th emission.
+   1. Every batch is in exactly one place, once: with its dispatcher (not yet merged), in a slot that is
+      still inside the consolidator, or in one emitted flush.
+   2. The batches that were sent back are exactly those in slots or flushes.
+   3. Nothing is left behind: a batch sent back before the g-th DrainStart (e < g) is in a flush as
+      soon as g flushes have been emitted.
+   4. Which flush: the batch of flush f got its slot before that emission (t < f) and was sent back
+      after the start of flush f-1 (f <= e+1) -- so a dispatch that returned before flush f began and
+      was not flushed earlier is in flush f, and one concurrent with flush f is in f or f+1 (e <= f). *)
+Theorem C15_flush_contains : forall (M : Type) (mempty : M) (mmerge : M -> M -> M) (k : nat) ls s,
+  run (Consolidator.step mempty mmerge k) (Consolidator.init mempty k) ls = Some s ->
+  List.NoDup (pending_ids s ++ ids_of (resident s) ++ flushed_ids s)
+  /\ (forall i, i < next_id s <-> In i (pending_ids s ++ ids_of (resident s) ++ flushed_ids s))
+  /\ (forall i, put_stamp s i <> None <-> In i (ids_of (resident s) ++ flushed_ids s))
+  /\ (forall i e, put_stamp s i = Some e -> e < length (flushes s) -> In i (flushed_ids s))
+  /\ (forall i f, In i (flush_ids s f) ->
+        exists e t, put_stamp s i = Some e /\ take_stamp s i = Some t /\ t < f /\ e <= f <= S e).
+Proof. exact (@flush_contains). Qed.
+Print Assumptions C15_flush_contains.
+
+(* Conservation of contents.  For any measure [abs] of a map's contents that merging adds up
+   (a multiset, as a list up to permutation: datapoint ids; or Model.MetricMap.mmap's counter totals,
+   timer value multisets, set members), every map -- still inside or already emitted -- holds exactly
+   the batches whose numbers it carries: with C15_flush_contains, each batch's contents are in exactly
+   one emitted map or still inside, never in two, never in none. *)
+Theorem C15_conservation : forall (M X : Type) (mempty : M) (mmerge : M -> M -> M) (k : nat) (abs : M -> list X),
+  abs mempty = [] ->
+  (forall a b, Permutation (abs (mmerge a b)) (abs a ++ abs b)) ->
+  forall ls s, run (Consolidator.step mempty mmerge k) (Consolidator.init mempty k) ls = Some s ->
+  forall sl, In sl (resident s ++ concat (flushes s)) ->
+    Permutation (abs (s_map sl))
+                (concat (map (fun i => match batch_of s i with Some b => abs b | None => [] end) (s_ids sl))).
+Proof. exact (@slot_contents). Qed.
+Print Assumptions C15_conservation.
+
+(* ---- splitting by dynamic-header tags ------------------------------------------------------- *)
+
+(* SplitByTags is a partition: part keys are distinct; the part with key pk holds exactly the series
+   of m (of every type, with unchanged values) whose own tags key yields pk under tagsMatch, and
+   nothing else; every series of m has its part.  Hence each series is in exactly one part, the one
+   whose key (from which constructPost derives the headers) comes from its own tags. *)
+Theorem C15_split_partition : forall (names : list str) (m : mmap),
+  NoDup (split_by_tags names m).*1
+  /\ (forall pk p ty k, (pk, p) ∈ split_by_tags names m ->
+        series_at p ty k = if decide (part_key names k = pk) then series_at m ty k else None)
+  /\ (forall ty k, is_Some (series_at m ty k) -> exists p, (part_key names k, p) ∈ split_by_tags names m).
+Proof. exact split_partition. Qed.
+Print Assumptions C15_split_partition.
+
+(* ---- one request ----------------------------------------------------------------------------- *)
+
+(* For every fault script (sequence of Construct / Attempt outcome / Backoff / Stop / CtxDone labels
+   the post loop accepts): every attempt but the last one failed -- attempt n+1 happens only after
+   attempt n failed and nothing follows a success; the request is Sent iff its last attempt
+   succeeded; it has a final status iff it has ended; sent / dropped / invalid are counted exactly
+   once, with that status; dropped = number of times the backoff policy said Stop, retried = number
+   of times it did not; created = sent + dropped + abandoned + in flight; only a request under a
+   cancellable context (the start-up nop) can be abandoned. *)
+Theorem C15_retry_discipline : forall (cancellable : bool) (ls : list plabel) (s : pstate),
+  run (post_step cancellable) pinit ls = Some s ->
+  let k := p_ctr s in
+  Forall (eq Failed) (tl (p_hist s))
+  /\ (p_status s = SSent <-> head (p_hist s) = Some Ok2xx)
+  /\ (p_status s <> SNone <-> p_phase s = PEnd)
+  /\ n_sent k = (match p_status s with SSent => 1 | _ => 0 end)
+  /\ n_dropped k = (match p_status s with SDropped => 1 | _ => 0 end)
+  /\ n_invalid k = (match p_status s with SInvalid => 1 | _ => 0 end)
+  /\ n_created k = n_sent k + n_dropped k + (match p_status s with SAbandoned => 1 | _ => 0 end) + in_flight s
+  /\ n_retried k + n_dropped k + (match p_phase s with PFailed => 1 | _ => 0 end) = failures (p_hist s)
+  /\ n_dropped k = count_label is_stop ls
+  /\ n_retried k = count_label is_backoff ls
+  /\ (p_status s = SAbandoned -> cancellable = true).
+Proof. exact retry_discipline. Qed.
+Print Assumptions C15_retry_discipline.
+
+(* ---- the handler ------------------------------------------------------------------------------ *)
+
+(* Semaphores: free tokens + holders = capacity, always (so a release never blocks); when nothing
+   is running every token of both semaphores is back. *)
+Theorem C15_sem_balance : forall (cm mr : nat) (dyn : list str) (utf8ok : str -> bool) ls s,
+  run (hstep cm mr dyn utf8ok) (hinit cm mr) ls = Some s ->
+  merge_free s + merging s = cm /\ req_free s + holding_req s = mr
+  /\ (at_rest s = true -> merge_free s = cm /\ req_free s = mr).
+Proof. exact sem_balance. Qed.
+Print Assumptions C15_sem_balance.
+
+(* Every item read from the sink is in exactly one place: the flush waiting for a merging token, a
+   flush goroutine (merging, or in a part not yet posted), or the part of exactly one request.  All
+   items of a request route to that request's key (from which its headers are derived), requests
+   other than the nop are non-empty, and each request's state is a state of the post LTS (so
+   C15_retry_discipline applies to it).  At rest every item is in a request and every request has
+   ended. *)
+Theorem C15_handler_delivery : forall (cm mr : nat) (dyn : list str) (utf8ok : str -> bool) ls s,
+  run (hstep cm mr dyn utf8ok) (hinit cm mr) ls = Some s ->
+  Permutation (items_received s) (items_held s)
+  /\ Forall (fun r => Forall (fun it => item_pkey dyn it = r_key r) (r_part r)
+                      /\ (r_tok r = true -> r_part r <> [])
+                      /\ exists pls, run (post_step (negb (r_tok r))) pinit pls = Some (r_post r)) (reqs s)
+  /\ (at_rest s = true ->
+        Permutation (items_received s) (concat (map r_part (reqs s)))
+        /\ Forall (fun r => p_phase (r_post r) = PEnd) (reqs s)).
+Proof. exact handler_delivery. Qed.
+Print Assumptions C15_handler_delivery.
+
+(* Isolation between requests: whether a request is Invalid depends on its own part only -- it is
+   Invalid iff its own part contains a string the serialiser rejects; a part whose strings are all
+   valid UTF-8 is always created, whatever the other parts of the flush contain. *)
+Theorem C15_isolation_valid : forall (cm mr : nat) (dyn : list str) (utf8ok : str -> bool) ls s r,
+  run (hstep cm mr dyn utf8ok) (hinit cm mr) ls = Some s -> In r (reqs s) ->
+  p_phase (r_post r) <> PNew ->
+  (p_status (r_post r) = SInvalid <-> serialisable utf8ok (r_part r) = false)
+  /\ (serialisable utf8ok (r_part r) = true -> n_created (p_ctr (r_post r)) = 1 /\ n_invalid (p_ctr (r_post r)) = 0).
+Proof. exact isolation_valid. Qed.
+Print Assumptions C15_isolation_valid.
+
+(* ... but not between clients (known finding D8): the property's "one client's datapoints never cause
+   another client's datapoints in the same flush to be lost" is refuted on the model.  d8_x is a valid
+   datapoint of one client, d8_y a datapoint of another client with the tag 0xFF; one flush merges them
+   into one part, whose request is Invalid: d8_x is never sent and is counted only as "invalid". *)
+Theorem C15_isolation_refuted_D8 :
+  exists s r, run (hstep 1 1 [] d8_utf8) (hinit 1 1) d8_run = Some s
+    /\ In r (reqs s) /\ In d8_x (r_part r) /\ item_ok d8_utf8 d8_x = true
+    /\ p_status (r_post r) = SInvalid /\ n_created (p_ctr (r_post r)) = 0
+    /\ at_rest s = true /\ hcounters s = Ctr 1 1 0 0 1.
+Proof. exact isolation_refuted_D8. Qed.
+Print Assumptions C15_isolation_refuted_D8.
